@@ -9,7 +9,7 @@ from vf.model.rnd import urandoms
 
 PID = "C14"
 LEVEL = "exploration"
-BUDGET = {"quick": 3000, "thorough": 150000}
+BUDGET = {"quick": 6000, "thorough": 150000}
 RULE = ("Hypothesis draws RouteMap programs built with the documented DSL: 1..3 policies x 1..3 numbered statements; conditions from R.* "
         "(community / large_community / extcommunity_rt / extcommunity_soo has / has_any over 1..3 lists of one type, match_v4/match_v6 with "
         "or_longer, as_path_filter, as_path_length with ==,>=,<=,between, rd, metric, protocol, interface, local_pref, family) and actions from "
@@ -78,7 +78,10 @@ def gen_cond(rnd, tame=False):
 
 def gen_action(rnd, tame=False):
     if tame:
-        k = rnd.choice([0, 0, 1, 5, 7, 8, 9, 10, 11, 12, 13])
+        k = rnd.choice([0, 0, 1, 4, 5, 7, 8, 9, 10, 11, 12, 13])
+        if k == 4:
+            # the unified extcommunity field with one RT list (no other statement need mention that list)
+            return ["extcommunity", [[rnd.choice(["add", "remove", "remove", "set"]), [rnd.choice(["CR1", "CR2"])]]]]
         if k in (0, 1):
             f = ["community", "large_community"][k]
             pool = [n for n in BY_TYPE[f] if n != "CBR"]
